@@ -368,7 +368,19 @@ def exercise(dm, df, order=None, names=None, problems=None):
                 str(m), repr(m)
         if dm.common is not None:
             dm.common.as_dataframe(), dm.common.as_dataframe()
-        dm.response.as_dataframe(), dm.response.as_dataframe()
+            view = dm.common.as_dataframe()  # ... which is the caller's own: overwriting it is not the library's business
+            view.iloc[:, :] = view.to_numpy() * 0 - 7
+            for m in (dm.common, dm.group):
+                if m is not None:
+                    copy_ = np.array(m)
+                    if copy_.flags.writeable:
+                        copy_[...] = -3
+        rview = dm.response.as_dataframe()
+        dm.response.as_dataframe()
+        try:
+            rview.iloc[:, :] = rview.to_numpy() * 0 - 7
+        except Exception:
+            pass
         done.append("printed")
         nd = df.iloc[:4].reset_index(drop=True).copy()
         for col in ("f", "g", "h"):
